@@ -682,6 +682,19 @@ def install(w):
         it.ex.event(ev="spawn", task=t.id)
         return W.JoinHandle(t)
 
+    @reg("std::panic::resume_unwind", "panic::resume_unwind", "resume_unwind")
+    def panic_resume_unwind(w, it, a, c):
+        pl = a[0]
+        inner = pl.cell.value if isinstance(pl, BoxV) else pl
+        msg = inner.data if isinstance(inner, Opaque) and inner.what == "PanicPayload" else "resumed panic"
+        raise RustPanic(str(msg))
+
+    @reg("tokio::runtime::Handle::runtime_flavor", "Handle::runtime_flavor")
+    def rt_flavor(w, it, a, c):
+        # which kind of runtime the caller is on is an input: both are explored
+        k = it.ex.choose(2, "runtime-flavor")
+        return mk_enum("RuntimeFlavor", ["CurrentThread", "MultiThread"][k])
+
     @reg("std::future::ready", "future::ready")
     def future_ready(w, it, a, c):
         return W.ReadyFut(a[0])
@@ -2110,7 +2123,19 @@ def install(w):
             return mk_ok(ch.q.pop(0))
         if not ch.tx_alive:
             return mk_err(Agg("struct", "RecvError", []))
-        raise Unsupported("std mpsc recv would block forever")
+        # a blocking wait on a std channel: the calling thread sleeps while everybody else runs
+        # (interleaving semantics; which worker thread runs what is outside the model)
+
+        class StdRecvFut(ModelObj):
+            type_name = "StdRecvFut"
+
+            def poll(self_, it_, cx_):
+                if ch.q:
+                    return mk_ready(mk_ok(ch.q.pop(0)))
+                if not ch.tx_alive:
+                    return mk_ready(mk_err(Agg("struct", "RecvError", [])))
+                return mk_pending()
+        return w.block_on(it, StdRecvFut())
 
     def std_recv_timeout(w, it, a, c):
         ch = deref(it, a[0]).ch
@@ -2121,9 +2146,10 @@ def install(w):
         return mk_err(mk_enum("RecvTimeoutError", "Timeout"))
     B["std::sync::mpsc::Receiver::recv_timeout"] = std_recv_timeout
     B["std::sync::mpsc::channel"] = std_channel
+    B["std::sync::mpsc::sync_channel"] = std_channel        # capacity is irrelevant for the one-shot result hand-over it is used for
     B["std::sync::mpsc::Receiver::recv"] = std_recv
 
-    @reg("std::sync::mpsc::Sender::send")
+    @reg("std::sync::mpsc::Sender::send", "std::sync::mpsc::SyncSender::send", "SyncSender::send", "SyncSender::try_send")
     def std_send(w, it, a, c):
         deref(it, a[0]).ch.q.append(a[1])
         return mk_ok(UNIT)
